@@ -31,7 +31,10 @@ def disagree_jobs(rnd, n):
                     a = a + ["extra.py::y"] if r2.random() < 0.5 else a[:-1] + ["other.py::x"]
                 return a
             if who in ("initial", "both") and nn >= 2:
-                cfg["overrides"][r2.randrange(nn)] = alt()
+                a1 = alt()
+                for w in r2.sample(range(nn), r2.choice([1, 1, 2, min(nn, 3)]) if nn >= 2 else 1):
+                    # several workers may disagree, in the same way or each in its own
+                    cfg["overrides"][w] = a1 if r2.random() < 0.6 else alt()
             if who in ("late", "both"):
                 cfg["overrides"][nn + r2.randrange(2)] = alt()
                 if not cfg["crashers"]:
